@@ -22,7 +22,7 @@ struct ZoneSpec {
   int eio_times = 0;      // transient: first N sources fail with eio at half length
 };
 
-enum OpKind : uint8_t { O_LOAD, O_UTC, O_FIXED, O_LOCAL, O_DEFAULT, O_TAKE, O_EQ, O_QUERY, O_SET_STATE, O_NKINDS };
+enum OpKind : uint8_t { O_LOAD, O_UTC, O_FIXED, O_LOCAL, O_DEFAULT, O_TAKE, O_EQ, O_QUERY, O_SET_STATE, O_BULK, O_NKINDS };
 
 struct Op {
   OpKind k = O_LOAD;
@@ -30,7 +30,7 @@ struct Op {
   int slot = 0;      // destination / subject slot
   int slot2 = 0;     // EQ: other slot; TAKE: source slot
   int t2 = 0;        // TAKE: source task
-  int64_t a = 0;     // FIXED: offset
+  int64_t a = 0;     // FIXED: offset; BULK: how many distinct fresh names to load (then the first `slot2` of them again)
   Query q;           // QUERY
   std::string s;     // SET_STATE: new state
 };
